@@ -5,7 +5,6 @@
 
 #include <etl/_config/all.hpp>
 
-#include <etl/_type_traits/is_constant_evaluated.hpp>
 #include <etl/_type_traits/is_same.hpp>
 
 namespace etl {
@@ -23,17 +22,21 @@ constexpr auto copysign_fallback(T x, T y) noexcept -> T
 template <typename T>
 [[nodiscard]] constexpr auto copysign(T x, T y) noexcept -> T
 {
-    if (!is_constant_evaluated()) {
-        if constexpr (is_same_v<T, float>) {
+    // the builtins are usable in constant expressions and honour the sign of zeros and NaNs
+    if constexpr (is_same_v<T, float>) {
 #if __has_builtin(__builtin_copysignf)
-            return __builtin_copysignf(x, y);
+        return __builtin_copysignf(x, y);
 #endif
-        }
-        if constexpr (is_same_v<T, double>) {
+    }
+    if constexpr (is_same_v<T, double>) {
 #if __has_builtin(__builtin_copysign)
-            return __builtin_copysign(x, y);
+        return __builtin_copysign(x, y);
 #endif
-        }
+    }
+    if constexpr (is_same_v<T, long double>) {
+#if __has_builtin(__builtin_copysignl)
+        return __builtin_copysignl(x, y);
+#endif
     }
     return copysign_fallback(x, y);
 }
